@@ -44,6 +44,8 @@ func variants(b int) int {
 		return 6
 	case "two-lexers":
 		return 18
+	case "error-objects":
+		return 6
 	}
 	return 2
 }
